@@ -81,6 +81,15 @@ type Kernel struct {
 	// the xtables lock is held by someone else); the counter then stops
 	FailAt int
 	nCalls int
+	// FailSave: the next iptables-save (SaveInto) fails the same way (a read; nothing to undo)
+	FailSave bool
+}
+
+// ArmSaveFault makes the next iptables-save fail cleanly.
+func (k *Kernel) ArmSaveFault(on bool) {
+	k.mu.Lock()
+	defer k.mu.Unlock()
+	k.FailSave = on
 }
 
 // ArmFault makes the n-th (1-based) state-changing iptables call from now fail cleanly; 0 disarms.
@@ -612,6 +621,11 @@ func (f *IPTables) SaveInto(table utiliptables.Table, buffer *bytes.Buffer) erro
 	k := f.K
 	k.mu.Lock()
 	defer k.mu.Unlock()
+	if k.FailSave {
+		k.FailSave = false
+		k.Log = append(k.Log, Op{Kind: "save", Table: string(table), OK: false, Why: "injected"})
+		return fmt.Errorf("Another app is currently holding the xtables lock (injected transient failure of iptables-save)")
+	}
 	buffer.WriteString(k.table(string(table)).saveText())
 	return nil
 }
